@@ -92,7 +92,13 @@ func parseArchInto(ret *Arch, arch string) error {
 		}
 	case 2:
 		/* Right, this is something like kfreebsd-amd64, which is implicitly
-		 * gnu-kfreebsd-amd64 */
+		 * gnu-kfreebsd-amd64. A wildcard such as linux-any or any-amd64
+		 * leaves the ABI open as well. */
+		if flavors[0] == "any" || flavors[1] == "any" {
+			ret.ABI = "any"
+		} else {
+			ret.ABI = "gnu"
+		}
 		ret.OS = flavors[0]
 		ret.CPU = flavors[1]
 	case 3:
